@@ -21,7 +21,7 @@ from .. import impl
 from .. import parsecheck as P
 
 PID = 'C01'
-CONFIGS = ['SY_ops.cfg', 'SY_args.cfg', 'SY_refs.cfg']
+CONFIGS = ['SY_ops.cfg', 'SY_args.cfg', 'SY_refs.cfg', 'SY_union.cfg']
 
 
 def tlc_obligations(rep, configs, maxlen_bump=0):
@@ -122,7 +122,7 @@ def check_one(o, styles, rnd):
     want = None
     for st, tk in variants:
         text = P.spell(tk, 'min' if st == 'parens' else st, rnd)
-        p = P.run_parser(text, want_value=tree is not None and not P.has_refs(tree))
+        p = P.run_parser(text, want_value=tree is not None)
         n += 1
         if p.status == 'escape':
             probs.append(('escape', {'text': text, 'exception': p.exc, 'style': st}))
@@ -147,7 +147,7 @@ def check_one(o, styles, rnd):
                 if P.norm_rpn(p.rpn) != [x.upper() if x not in ('u-', 'u+') else x for x in exp_rpn]:
                     probs.append(('rpn', {'text': text, 'expected': exp_rpn, 'observed': p.rpn, 'style': st}))
                     continue
-        if not P.has_refs(tree):
+        if tree is not None:
             if want is None:
                 st_w, val_w = impl.observe(P.treewalk, tree)
                 want = ('raise', val_w) if st_w == 'raise' else ('ok', V.alpha(val_w))
